@@ -117,6 +117,10 @@ class watchdog(object):
     non-returning library call into a reportable event; never a correctness signal for
     calls that do return."""
 
+    # The budget is CPU time of this process (ITIMER_PROF), so a loaded machine cannot turn a
+    # call that does return into a "hang"; a wall-clock backstop 15 times larger catches a call
+    # that blocks without burning CPU.
+
     def __init__(self, seconds):
         self.seconds = seconds
 
@@ -124,11 +128,15 @@ class watchdog(object):
         def on_alarm(signum, frame):
             raise CaseHang()
         self.old = signal.signal(signal.SIGALRM, on_alarm)
-        signal.setitimer(signal.ITIMER_REAL, self.seconds)
+        self.oldp = signal.signal(signal.SIGPROF, on_alarm)
+        signal.setitimer(signal.ITIMER_PROF, self.seconds)
+        signal.setitimer(signal.ITIMER_REAL, self.seconds * 15)
 
     def __exit__(self, *a):
+        signal.setitimer(signal.ITIMER_PROF, 0)
         signal.setitimer(signal.ITIMER_REAL, 0)
         signal.signal(signal.SIGALRM, self.old)
+        signal.signal(signal.SIGPROF, self.oldp)
         return False
 
 
